@@ -3,7 +3,7 @@
 Sizes come from `const` items; the small literals that are written inline in
 btree.rs (slot width, payload width, child-pointer width, varint radix) are
 re-read from the expressions that use them, and the comparison operators of the
-two hand-written binary searches plus the two median expressions are pinned by
+two hand-written binary searches plus the split-point function and its two call sites are pinned by
 pattern (a changed operator is a hard error: the model would no longer be the
 code).
 """
@@ -23,6 +23,14 @@ def generators(core):
         m = need(start_pat, text, what)
         rest = text[m.start():]
         e = re.search(r"\n    }\n", rest)
+        if not e:
+            raise Miss("btree.rs: end of %s" % what)
+        return rest[: e.end()]
+
+    def body_fn(text, start_pat, what):
+        m = need(start_pat, text, what)
+        rest = text[m.start():]
+        e = re.search(r"\n}\n", rest)
         if not e:
             raise Miss("btree.rs: end of %s" % what)
         return rest[: e.end()]
@@ -65,8 +73,14 @@ def generators(core):
         need(r"let mid = \(lo \+ hi\) / 2;.*?if k <= target \{\s*lo = mid \+ 1;\s*\} else \{\s*hi = mid;", f, "internal_child_for_key is an upper bound (k <= target)")
         core.emit_n("bt_descent_is_upper_bound", 1, rel + " internal_child_for_key: `if k <= target` (pinned)")
         core.emit_n("bt_leaf_pos_is_lower_bound", 1, rel + " leaf_lower_bound: `if k < target` (pinned)")
-        need(r"let mid = entries\.len\(\) / 2;\s*let left_entries = entries\[\.\.mid\]\.to_vec\(\);\s*let right_entries = entries\[mid\.\.\]\.to_vec\(\);\s*let sep_key = right_entries\[0\]\.0\.clone\(\);", t, "leaf split at the median, separator = first key of the right node")
-        need(r"let mid = keys\.len\(\) / 2;\s*let promote = keys\[mid\]\.clone\(\);", t, "internal split promotes the median key")
+        # split point: closest to the median such that both halves fit (fn split_point), used by both splits
+        f = body_fn(t, r"fn split_point\(", "split_point")
+        need(r"let mut mid = len / 2;\s*while mid > 0 && left\(mid\) > capacity \{\s*mid -= 1;\s*\}\s*while mid \+ 1 < len && right\(mid\) > capacity \{\s*mid \+= 1;\s*\}\s*if left\(mid\) > capacity \|\| right\(mid\) > capacity \{\s*return None;", f, "split_point: median, shrink left, shrink right, both must fit")
+        need(r"let left = \|mid: usize\| costs\[\.\.mid\]\.iter\(\)\.sum::<usize>\(\);\s*let right = \|mid: usize\| costs\[mid \+ skip\.\.\]\.iter\(\)\.sum::<usize>\(\);", f, "split_point: halves are costs[..mid] and costs[mid+skip..]")
+        need(r"split_point\(&costs, 0, PAGE_SIZE - COMMON_HEADER_SIZE\)\s*\.ok_or\(Error::WalProtocol\(\"index page: no space\"\)\)\?;\s*let left_entries = entries\[\.\.mid\]\.to_vec\(\);\s*let right_entries = entries\[mid\.\.\]\.to_vec\(\);\s*let sep_key = right_entries\[0\]\.0\.clone\(\);", t, "leaf split at split_point, separator = first key of the right node")
+        need(r"split_point\(&costs, 1, PAGE_SIZE - INTERNAL_HEADER_SIZE\)\s*\.ok_or\(Error::WalProtocol\(\"index page: no space\"\)\)\?;\s*let promote = keys\[mid\]\.clone\(\);", t, "internal split at split_point promotes keys[mid]")
+        need(r"fn leaf_cell_cost\(key: &\[u8\]\) -> usize \{\s*varint_u32_len\(key\.len\(\) as u32\) \+ key\.len\(\) \+ 8 \+ 2\s*\}", t, "leaf_cell_cost = cell length + slot")
+        need(r"fn internal_cell_cost\(key: &\[u8\]\) -> usize \{\s*8 \+ varint_u32_len\(key\.len\(\) as u32\) \+ key\.len\(\) \+ 2\s*\}", t, "internal_cell_cost = cell length + slot")
         need(r"binary_search_by\(\|\(k, _\)\| k\.as_slice\(\)\.cmp\(key\)\)\s*\.unwrap_or_else\(\|p\| p\);", t, "split position by slice::binary_search_by on the key")
         need(r"\(k, v\)\.cmp\(&\(key, payload\)\)", t, "delete searches by slice::binary_search_by on (key, payload)")
         core.emit_n("bt_first_data_page", core.num(need(r"const FIRST_DATA_PAGE_ID: PageId = PageId\((\d+)\);", pg, "FIRST_DATA_PAGE_ID").group(1)), "nervusdb-storage/src/pager.rs FIRST_DATA_PAGE_ID")
